@@ -218,33 +218,12 @@ def shorten(x):
     return x
 
 
-def cfg_obligations(ctx, flags):
-    """the theorems of Props/C11.lean are stated for a reader configuration; the reader in the tree must be
-    the one they need.  Checked by Lean on the regenerated Gen/ArchiveTable.lean."""
-    need = {
-        "checkAfterRead": "a short read is reported at once (C11_truncation_detected, C11_never_undefined)",
-        "versionOr": "either version field differing is rejected (C11_header_version_detected)",
-        "indexChecked": "indices from the archive are range-checked (C11_indices_in_bounds, C11_never_undefined)",
-        "lengthChecked": "lengths from the archive are bounded by the stream (C11_never_undefined)",
-    }
-    path = os.path.join(ctx.tmp, "Cfg.lean")
-    names = list(need)
-    with open(path, "w") as f:
-        f.write("import MorfuseModel.Archive.Model\n")
-        for n in names:
-            f.write("example : Morfuse.Gen.Archive.%s = true := by decide\n" % n)
-    with common.LakeLock():
-        p = common.sh(["lake", "env", "lean", path], cwd=LEAN, timeout=600)
-    out = p.stdout + p.stderr
-    allok = True
-    for i, n in enumerate(names):
-        bad = ("Cfg.lean:%d:" % (i + 2)) in out
-        if bad != (not flags[n]):
-            raise common.CheckError("translator and Lean disagree on switch " + n + ":\n" + out[-1500:])
-        ctx.oblige("reader switch %s: %s" % (n, need[n]), not bad,
-                   "the reader in $VERIF_REPO does not do this; see notes/C11-findings.md", reported=True)
-        allok = allok and not bad
-    return allok
+NEED = {
+    "checkAfterRead": "a short read is reported at once (C11_truncation_detected, C11_never_undefined)",
+    "versionOr": "either version field differing is rejected (C11_header_version_detected)",
+    "indexChecked": "indices from the archive are range-checked (C11_indices_in_bounds, C11_never_undefined)",
+    "lengthChecked": "lengths from the archive are bounded by the stream (C11_never_undefined)",
+}
 
 
 def corpus_archives():
@@ -274,7 +253,7 @@ def check(ctx):
     d = archgen.translate(ctx)
     proofs_ok, _ = common.proof_side(ctx, PROPS_MODULE, PROPS_FILE)
     if proofs_ok or ctx.stats.get("lake_build_ok"):
-        cfg_obligations(ctx, d["flags"])
+        archgen.cfg_obligations(ctx, d["flags"], NEED, "notes/C11-findings.md")
     if ctx.tier == "thorough":
         common.leanchecker(ctx, PROPS_MODULE)
     exe = archgen.build(ctx)
